@@ -463,6 +463,23 @@ func c12Eval(c *runCtx, names, labels, titles []string) {
 		allVals := append(append(append([]string{}, names...), labels...), titles...)
 		for k := 0; k < Q; k++ {
 			s, _ := randStructQuery(r, append(names, string(ids[0])[:5], strings.ToUpper(string(ids[1])[:4])), labels, titles)
+			if k%8 == 7 {
+				// any-of within one kind: two or three metadata qualifiers on the same key with different values
+				// (and status, author, actor, participant given several times)
+				key := pickOne(r, mdKeyPool[:4])
+				vals := []string{"v", "42", "https://example.com/x?y=1", "a b"}
+				i0 := r.intn(len(vals))
+				s = "metadata:" + renderValue(r, key) + ":" + renderValue(r, vals[i0]) + " metadata:" + renderValue(r, key) + ":" + renderValue(r, vals[(i0+1+r.intn(3))%4])
+				if r.chance(1, 3) {
+					s += " metadata:" + renderValue(r, pickOne(r, mdKeyPool[:4])) + ":" + renderValue(r, pickOne(r, vals))
+				}
+				if r.chance(1, 2) {
+					s += " status:open status:closed"
+				}
+				if r.chance(1, 3) {
+					s += " author:bob author:rene"
+				}
+			}
 			if twoSided && !strings.Contains(s, "sort:") && r.chance(1, 2) {
 				// where clocks tie, ask for the order that the timestamps must decide
 				s = strings.TrimSpace(s + " sort:" + pickOne(r, []string{"edit", "edit-asc", "edit-desc", "creation-asc"}))
